@@ -14,7 +14,7 @@ CASES_PER_QUERY = 8
 def op_count(base, op):
     nv, ne, nf, nc = BASE_COUNTS[base]
     return {OP_DEL_V: nv, OP_DEL_E: ne, OP_DEL_F: nf, OP_DEL_C: nc, OP_ADD_V: 1, OP_ADD_NV: 1, OP_GC: 1, OP_CLEAR: 1,
-            OP_ADD_E: nv*nv, OP_ADD_E_DUP: nv*nv, OP_SWAP_V: nv*nv, OP_SWAP_E: ne*ne, OP_SWAP_F: nf*nf, OP_SWAP_C: nc*nc, OP_BU_TOGGLE: 14, OP_SET_MODE: 4, OP_BU_OFF: 8}.get(op, 0)
+            OP_ADD_E: nv*nv, OP_ADD_E_DUP: nv*nv, OP_SWAP_V: nv*nv, OP_SWAP_E: ne*ne, OP_SWAP_F: nf*nf, OP_SWAP_C: nc*nc, OP_BU_TOGGLE: 14, OP_SET_MODE: 4, OP_BU_OFF: 8, OP_SET_E: ne*nv*nv, OP_SET_F: nf*2, OP_SET_C: nc*2, OP_ADD_F: nv*nv*nv, OP_NONE: 1}.get(op, 0)
 
 def op_shards(bases, modes, ops, per=CASES_PER_QUERY):
     out = []
